@@ -411,6 +411,109 @@ func rulesC12(c *Ctx) {
 		c.Check(bad == "", "R6", "scope.(*Scope).Err reports the current error list", pos, "nil, or built from Errors() of this call",
 			bad+" — errors appended after the remembered result was taken are stored but never reported by Err, Wait or Close")
 	}
+	ruleLocalChildrenClosed(c, "R7")
+}
+
+// ruleLocalChildrenClosed (C12.R7): a child scope that a function creates and closes itself is closed
+// on every path from its creation (an early return in between leaves a registered child that never
+// signs off: the parent's Wait/Close blocks forever and reports nothing).
+func ruleLocalChildrenClosed(c *Ctx, rule string) {
+	n := 0
+	for _, f := range c.P.AllModuleFuncs() {
+		for _, ci := range Calls(f) {
+			call, isCall := ci.Instr.(*ssa.Call)
+			if !isCall || ci.Static == nil || qualName(ci.Static) != mq("app/scope", "", "NewChild") {
+				continue
+			}
+			child := call.Value()
+			if child == nil {
+				continue
+			}
+			isClose := func(in ssa.Instruction) bool {
+				x := callInfo(in, nil, 0)
+				if x == nil || x.Kind == "go" {
+					return false
+				}
+				nm := ""
+				switch {
+				case x.Method != nil:
+					nm = x.Method.Name()
+				case x.Static != nil:
+					nm = x.Static.Name()
+				}
+				if nm != "Close" {
+					return false
+				}
+				r := resolve(x.Recv())
+				if mi, ok := r.(*ssa.MakeInterface); ok {
+					r = resolve(mi.X)
+				}
+				return r == child
+			}
+			closes := false
+			eachInstr(f, func(_ *ssa.BasicBlock, _ int, in ssa.Instruction) {
+				if isClose(in) {
+					closes = true
+				}
+			})
+			if !closes {
+				continue // handed out or closed by somebody else
+			}
+			n++
+			var bad []PathExit
+			for _, e := range MustPass(f, call, isClose) {
+				// a return that hands the child out (inside what it returns) passes the duty on
+				handed := false
+				if r, isRet := e.Instr.(*ssa.Return); isRet {
+					seenH := map[ssa.Value]bool{}
+					var holds func(v ssa.Value, d int) bool
+					holds = func(v ssa.Value, d int) bool {
+						if v == nil || seenH[v] || d > 12 {
+							return false
+						}
+						seenH[v] = true
+						if v == child {
+							return true
+						}
+						if u, ok := v.(*ssa.UnOp); ok && u.Op == token.MUL {
+							if a, ok := u.X.(*ssa.Alloc); ok {
+								for _, rf := range *a.Referrers() {
+									if st, ok := rf.(*ssa.Store); ok && st.Addr == ssa.Value(a) && holds(st.Val, d+1) {
+										return true
+									}
+								}
+								return false
+							}
+						}
+						if in, ok := v.(ssa.Instruction); ok {
+							for _, op := range in.Operands(nil) {
+								if op != nil && *op != nil && holds(*op, d+1) {
+									return true
+								}
+							}
+						}
+						return false
+					}
+					for _, rv := range r.Results {
+						if holds(rv, 0) {
+							handed = true
+						}
+					}
+				}
+				if !handed {
+					bad = append(bad, e)
+				}
+			}
+			pos := call.Pos()
+			why := ""
+			if len(bad) > 0 {
+				why = "the return at " + c.pos(bad[0].Instr.Pos()) + " is reachable without closing the child scope"
+			}
+			c.Check(len(bad) == 0, rule, "child scope created in "+fname(f)+" is closed on every path", pos, "Close() (or defer Close()) on every path after NewChild",
+				why+" — the child stays registered with its parent and never signs off: the parent's Wait/Close never returns and the failure is not reported")
+		}
+	}
+	c.Floor(rule, n, 1)
 }
 
 func chanDesc(v ssa.Value) string {
